@@ -1006,7 +1006,7 @@ impl Formatter {
     if self.html {
       format!("<div class=\"mech-success-block\">{}</div>",success_paragraph)
     } else {
-      format!("(✓)>> {}\n",success_paragraph)
+      format!("(+)> {}\n",success_paragraph)
     }
   }
 
@@ -1015,7 +1015,7 @@ impl Formatter {
     if self.html {
       format!("<div class=\"mech-warning-block\">{}</div>",warning_paragraph)
     } else {
-      format!("(!)>> {}\n",warning_paragraph)
+      format!("(!)> {}\n",warning_paragraph)
     }
   }
 
@@ -1033,7 +1033,7 @@ impl Formatter {
     if self.html {
       format!("<div class=\"mech-error-block\">{}</div>",error_paragraph)
     } else {
-      format!("(✗)>> {}\n",error_paragraph)
+      format!("(x)> {}\n",error_paragraph)
     }
   }
 
